@@ -31,6 +31,7 @@ type checker struct {
 	crossMismatch   int
 	traceNote       []string
 	minimiseRuns    int
+	batteryChecked  int
 	raceEv          *raceEvidence
 	deaths          int
 	agg             *agg
@@ -186,6 +187,7 @@ func (c *checker) run() int {
 		c.collect(a)
 		c.collect(b) // the order variants carry the same expectations
 		c.crossCompare(a, b)
+		c.batteryCheck(a)
 		c.handleDeaths(a)
 		c.agg.absorb(a, b)
 		// fresh-process pass: a few plans each in a node of its own (alternating between the original
@@ -314,6 +316,92 @@ func (c *checker) crossCompare(a, b *runOutcome) {
 			break
 		}
 	}
+}
+
+// batteryCheck compares the battery (see BatteryBase) as answered by every long-lived node of the
+// main pass, after everything else it served, with the battery answered by a fresh node.
+func (c *checker) batteryCheck(a *runOutcome) {
+	var idx []int
+	for i := range a.results {
+		if i >= BatteryBase {
+			idx = append(idx, i)
+		}
+	}
+	if len(idx) == 0 {
+		return
+	}
+	sort.Ints(idx)
+	ref := runBatchV(c.prop, c.seed, c.tier, []int{BatteryBase}, 1, []int{4}, "r", false)
+	rr := ref.results[BatteryBase]
+	if rr == nil {
+		infra("the battery could not be executed in a fresh node")
+	}
+	dr := digestsByID(rr.OpDigests)
+	var ids []string
+	for id := range dr {
+		ids = append(ids, id)
+	}
+	sort.Strings(ids)
+	for _, i := range idx {
+		da := digestsByID(a.results[i].OpDigests)
+		c.batteryChecked++
+		for _, id := range ids {
+			va, ok := da[id]
+			vr := dr[id]
+			if !ok || va == vr {
+				continue
+			}
+			ca, cr := classOf(id+"="+va), classOf(id+"="+vr)
+			if ca == cr && ca != "ok" {
+				continue // rejected both times; the wording may differ
+			}
+			if ca == "blocked" || cr == "blocked" || ca == "fuel" || cr == "fuel" {
+				continue // liveness: C20's own oracles
+			}
+			v := Violation{Property: c.prop, Oracle: "differs-after-history", Op: id,
+				Key:    c.prop + "|differs-after-history",
+				Detail: fmt.Sprintf("battery request %s is answered %s by a fresh node process and %s by a node that had served %d plans before: what it served changed it", id, vr, va, len(a.prior[i]))}
+			switch c.prop {
+			case "C02", "C09", "C08":
+				c.noteCross(v, i, a)
+			case "C10":
+				// C10's matter only if overlap caused it: with the same plans served one request at a
+				// time the node must still answer like a fresh one
+				hist := []*Plan{}
+				for _, j := range a.prior[i] {
+					hist = append(hist, serialised(GenPlan(c.prop, c.seed, j, c.tier)))
+				}
+				bat := GenPlan(c.prop, c.seed, i, c.tier)
+				res, died, _ := runPlansFresh(append(hist, bat), 4)
+				if died || len(res) == 0 {
+					c.traceNote = append(c.traceNote, "battery differs after history; the sequential control could not be run")
+					break
+				}
+				ds := digestsByID(res[len(res)-1].OpDigests)
+				if ds[id] == vr {
+					v.Oracle, v.Key = "lasting-influence-of-overlap", "C10|lasting-influence-of-overlap"
+					v.Detail += "; after the same plans with every concurrent group executed one task after the other the answer is the fresh node's: overlapping requests left the process changed"
+					c.noteCross(v, i, a)
+				} else {
+					c.traceNote = append(c.traceNote, fmt.Sprintf("battery request %s differs after history also when nothing overlaps: a C09 matter, not reported by the C10 check", id))
+				}
+			default:
+				c.traceNote = append(c.traceNote, fmt.Sprintf("battery request %s differs after history (%s vs %s): a C09 matter", id, vr, va))
+			}
+			break
+		}
+	}
+}
+
+// serialised returns the plan with every concurrent group executed one task after the other.
+func serialised(p *Plan) *Plan {
+	c := clonePlan(p)
+	for _, op := range c.Ops {
+		if op.Kind == "group" {
+			op.Sched = &SchedSpec{Strategy: "serial", Seed: 1}
+		}
+	}
+	return c
 }
 
 func digestsByID(ds []string) map[string]string {
